@@ -25,7 +25,7 @@ TABLE = [
      "W3: path segments are identifiers and therefore parse as syn::PathSegment"),
     (r"TypePathType::from_type_def_path", "panic-macro", r"panic", r"arm:\[\]",
      "W3: reached only for Composite/Variant (single funnel, C07.2), whose path is non-empty"),
-    (r"TypePathType::from_type_def_path", "may-panic-call", r"__private::mk_ident", r".*IdentFragmentAdapter\(C1_0\).*",
+    (r"TypePathType::from_type_def_path", "may-panic-call", r"__private::mk_ident", r".*IdentFragmentAdapter\((C1_0|elem\(P\d+\.segments\))\).*",
      "W3: path segments are identifiers"),
     (r"TypePathType::to_syn_type", "panic-macro", r"unimplemented", r"arm:TypeDefPrimitive::[UI]256(\|TypeDefPrimitive::[UI]256)?",
      "W5: no Rust type produces the U256/I256 primitives"),
